@@ -5,9 +5,10 @@ Decomposition (DESIGN.md section 5 / C03):
 * G  ground facts about the REAL tables (`Interpolants.compute_shapes`, `make_parent_element*`, `QuadratureRule.*`),
      evaluated in exact rational arithmetic on the binary64 table entries (no free variable -> `h.fact`; a failing
      fact is reported as a violation whose replay is the recomputation of the fact).
-* A  affine pull-back identities decided by the SOLVER on elements whose vertices are free reals (box [-4,4]^2,
-     signed area >= 1/100), for all three cyclic node orders, from the jaxprs of the real FunctionSpace / Mesh /
-     Surface functions.
+* A  affine pull-back identities decided by the SOLVER on elements whose vertices are free reals, for all three cyclic
+     node orders, from the jaxprs of the real FunctionSpace / Mesh / Surface functions. The exact identities are
+     SCALE-FREE (unbounded coordinates, only det J > 0 -- or nothing at all); only the atoms that carry an absolute
+     table-defect tolerance are stated on the box [-4,4]^2 (the linear ones are homogeneous, so they scale).
 * The composition "G + A => reproduction / exact integration on every valid mesh" is stated (assume_note/outside),
   not machine checked.
 """
@@ -26,7 +27,6 @@ P = 'C03'
 EPS = 2.0 ** -52
 ULPS = 64.0                      # G tolerance: 64 ulp * cond
 BOX = 4.0                        # vertex coordinates in [-BOX, BOX]
-DET_MIN = 0.02                   # det J = 2 * signed area >= 2/100
 TWO_PI = 2 * math.pi             # the binary64 constant the code multiplies with (2*np.pi is exact doubling of np.pi)
 SYM_ULPS = 16.0                  # cyclic symmetry of the decimal triangle tables (QuadratureRule docstring), absolute ulps of 1
 TOL_W = ULPS * EPS               # |sum of weights - exact| <= TOL_W (established by G, re-proved where used)
@@ -43,11 +43,11 @@ COMPOSITION = ('composition (stated, not machine-checked): polynomial spaces are
 OUTSIDE = ('rounding error of evaluating the formulas in binary64 (values are reals; table entries are the exact rationals of '
            'their binary64 values)',
            'curved (non-affine) higher-order elements: the code itself builds J from the three vertex nodes only',
-           'meshes with inverted or degenerate elements (signed area < 1/100 at box scale 4)')
+           'meshes with inverted or exactly degenerate elements (det J <= 0)')
 
 
 # Note on the linear goals (A4 points, elevated nodes, reference gradient of the coordinate map, edge quadrature points): z3 answers `unknown` as soon as
-# an irrelevant non-linear literal (det J >= 1/50, or the side conditions of a linear solve) is present, so these goals are proved for EVERY triangle of the
+# an irrelevant non-linear literal (det J > 0, or the side conditions of a linear solve) is present, so these goals are proved for EVERY triangle of the
 # box (no area hypothesis, which is the stronger statement) from cases that do not build shape gradients.
 DESIGNED_NOT_REGISTERED = [
     ('monolithic gradient reproduction |sum_a u_a (x) grad N_a - grad u| <= tol on a symbolic triangle (real tables, relational solve)',
@@ -323,8 +323,43 @@ def _ite_conds(fs, limit):
     return list(conds.values())
 
 
+def _vars(t, cache):
+    import z3
+    k = t.get_id()
+    if k not in cache:
+        out, stack, seen = set(), [t], set()
+        while stack:
+            u = stack.pop()
+            if u.get_id() in seen:
+                continue
+            seen.add(u.get_id())
+            if z3.is_const(u) and u.decl().kind() == z3.Z3_OP_UNINTERPRETED:
+                out.add(u.decl().name())
+            stack.extend(u.children())
+        cache[k] = out
+    return cache[k]
+
+
+def _relevant(assertions):
+    """drop the assertions that mention fresh variables (JX names contain '!') none of which is connected to the last assertion
+    (the negated goal) through chains of assertions sharing a fresh variable; assertions over input variables only are kept"""
+    if not assertions:
+        return assertions
+    cache = {}
+    vs = [set(v for v in _vars(a, cache) if '!' in v) for a in assertions]
+    rel = set(vs[-1])
+    changed = True
+    while changed:
+        changed = False
+        for v in vs:
+            if v & rel and not v <= rel:
+                rel |= v
+                changed = True
+    return [a for a, v in zip(assertions, vs) if not v or v & rel]
+
+
 def install_case_split():
-    """robustness against `select`s in the code under test (e.g. a guard on det J): when the query contains at most 3 distinct
+    """robustness against `select`s in the code under test (e.g. a guard on det J): when the query contains at most 4 distinct
     if-then-else conditions, decide it by exhaustive case split on them (each case: condition asserted and substituted, so the
     case is ite-free); all cases unsat = unsat, any case sat = sat (the model satisfies the asserted condition), else unknown.
     Process-local (every obligation runs in its own worker)."""
@@ -338,7 +373,19 @@ def install_case_split():
 
     def solve(assertions, cap_s, order=('core', 'nlsat')):
         assertions = [a for a in assertions]
-        conds = _ite_conds(assertions, 3)
+        red = _relevant(assertions)
+        if len(red) < len(assertions):
+            # first without the definitions of fresh variables (linear-solve unknowns, sqrt) that the goal cannot reach: dropping
+            # assertions only enlarges the set of models, so `unsat` stands; anything else is re-decided on the full set
+            st, m, sv, dt, att = split(red, 0.5 * cap_s, order)
+            if st == 'unsat':
+                return st, m, sv, dt, [('relevant:%s' % k, r, d) for k, r, d in att]
+            st2, m2, sv2, dt2, att2 = split(assertions, max(1.0, cap_s - dt), order)
+            return st2, m2, sv2, dt + dt2, [('relevant:%s' % k, r, d) for k, r, d in att] + att2
+        return split(assertions, cap_s, order)
+
+    def split(assertions, cap_s, order):
+        conds = _ite_conds(assertions, 4)
         if not conds:
             return plain(assertions, cap_s, order)
         t0, attempts, unknown = time.time(), [], False
@@ -423,11 +470,11 @@ def o4(h):
     install_case_split()
     FS, I, QR, M, S = _mods()
     h.encoded(FS.map_element_shape_grads)
-    h.bounds('all node coordinates free in [-%g,%g]^2, det J >= %g (signed area >= 1/100); reference gradients dN: all reals (2 quadrature points for P1, '
-             '1 for higher orders); P1 in the three cyclic node orders, P2 (thorough: P3, P2+bubble) with a scrambled global numbering' % (BOX, BOX, DET_MIN))
+    h.bounds('SCALE-FREE: all node coordinates are unbounded reals and the only geometric hypothesis is det J > 0 (no lower bound on the area: tiny elements, slivers, huge coordinates included); reference gradients dN: all reals (2 quadrature points for P1, '
+             '1 for higher orders); P1 in the three cyclic node orders, P2 (thorough: P3, P2+bubble) with a scrambled global numbering')
     h.outside(*OUTSIDE)
     h.assume_note(COMPOSITION, 'jax.scipy.linalg.solve (lu + custom_linear_solve) is encoded relationally: fresh g with matvec(g) = dN, matvec taken from the '
-                  'traced code (its matrix is the code\'s J.T); non-singularity follows from det J >= %g; LU pivoting/rounding outside the claim' % DET_MIN)
+                  'traced code (its matrix is the code\'s J.T); non-singularity follows from det J > 0; LU pivoting/rounding outside the claim')
     for label, pe, conn in element_cases(h):
         nn = len(conn)
         nq = 2 if nn == 3 else 1
@@ -460,8 +507,9 @@ def o5(h):
     install_case_split()
     FS, I, QR, M, S = _mods()
     h.encoded(FS.compute_element_volumes, FS.compute_element_volumes_axisymmetric, QR.create_quadrature_rule_on_triangle, I.compute_shapes)
-    h.bounds('all node coordinates free in [-%g,%g]^2, det J >= %g; weights and shape values: all reals (3 points) or the real tables of the six triangle rules; '
-             'P1 in the three cyclic node orders, P2 (thorough: P3, P2+bubble) scrambled' % (BOX, BOX, DET_MIN))
+    h.bounds('exact identities (symbolic weights/shape values, 3 points): ALL real coordinates, no hypothesis at all; sum of vols = area with the six real rules: '
+             'unbounded coordinates, det J > 0; real P1 tables in axisymmetric mode (absolute tolerance): coordinates in [-%g,%g]^2, det J > 0; '
+             'P1 in the three cyclic node orders, P2 (thorough: P3, P2+bubble) scrambled' % (BOX, BOX))
     h.outside(*OUTSIDE, 'the sign of r (axisymmetric volumes are signed with r; meshes are expected in r >= 0)')
     h.assume_note(COMPOSITION, 'the oracle uses the binary64 value of 2*pi (the constant the code multiplies with), never the ideal pi')
     rules = {d: QR.create_quadrature_rule_on_triangle(d) for d in TRI_RULE_DEGREES}
@@ -561,9 +609,9 @@ def o6(h):
     h.encoded(FS.interpolate_to_element_points, FS.interpolate_to_point, FS.interpolate_to_points, FS.compute_field_gradient, FS.compute_element_field_gradient,
               FS.compute_quadrature_point_field_gradient, FS.construct_function_space_from_parent_element, FS.map_element_shape_grads,
               M.create_higher_order_mesh_from_simplex_mesh, M.create_edges, I.compute_shapes)
-    h.bounds('three vertex coordinates free in [-%g,%g]^2 (linear goals: every triangle in the box, degenerate ones included; gradient chain: det J >= %g), three cyclic '
+    h.bounds('three vertex coordinates free in [-%g,%g]^2 (linear goals with absolute tolerance: every triangle in the box, degenerate ones included; gradient chain: unbounded coordinates, det J > 0 only), three cyclic '
              'node orders; real tables: P1 with rules 1,2,4 (thorough: all six), elevated P2, P3+bubble (thorough: also P3, P2+bubble) with rule 2 (thorough: also rule 4); '
-             'tolerances %.3g (P1 points), %.3g (elevated points/nodes), %.3g (reference gradient of the coordinate map)' % (BOX, BOX, DET_MIN, TOL_X, TOL_XH, TOL_J))
+             'tolerances %.3g (P1 points), %.3g (elevated points/nodes), %.3g (reference gradient of the coordinate map)' % (BOX, BOX, TOL_X, TOL_XH, TOL_J))
     h.outside(*OUTSIDE)
     h.assume_note(COMPOSITION, 'linear solve encoded relationally (see O4)')
     pe = parent(1, False)
@@ -727,9 +775,9 @@ def o7(h):
     FS, I, QR, M, S = _mods()
     h.encoded(M.compute_edge_vectors, M.get_edge_coords, M.get_edge_field, M.get_edge_node_indices, FS.integrate_function_on_edge, FS.integrate_function_on_edges,
               FS.interpolate_nodal_field_on_edge, FS.get_nodal_values_on_edge, I.compute_shapes, I.shape1d, QR.create_quadrature_rule_1D)
-    h.bounds('edge node coordinates free in [-%g,%g]^2 with distinct end points (direct call, line elements P1,P2; thorough: P3); triangles with all node coordinates '
-             'free in the box, det J >= %g, P1 in the three cyclic node orders and P2 scrambled (thorough: P3); 1-D rules of degree 1,3 (thorough: 5,9); '
-             'edge quadrature points: P1 and meshes elevated by the real code, every triangle in the box' % (BOX, BOX, DET_MIN))
+    h.bounds('edge node coordinates: all reals with distinct end points (direct call, line elements P1,P2; thorough: P3); triangles with all node coordinates '
+             'unbounded, det J > 0 only, P1 in the three cyclic node orders and P2 scrambled (thorough: P3); 1-D rules of degree 1,3 (thorough: 5,9); '
+             'edge quadrature points (absolute tolerance): P1 and meshes elevated by the real code, every triangle in [-%g,%g]^2' % (BOX, BOX))
     h.outside(*OUTSIDE, 'divergence theorem for non-constant polynomial fields: reduces to the 1-D ground moments of O2/O3 plus the identities proved here (composition)')
     h.assume_note(COMPOSITION, 'sqrt is encoded by its guarded definition (s >= 0, s*s = a); no denominator is assumed non-zero: jac != 0 is derived from the distinct end points')
     # (a) direct
@@ -897,8 +945,9 @@ def o8(h):
     h.encoded(FS.construct_function_space, FS.construct_function_space_from_parent_element, FS.map_element_shape_grads, FS.compute_element_volumes,
               FS.compute_element_volumes_axisymmetric, FS.compute_field_gradient, FS.compute_element_field_gradient, FS.compute_quadrature_point_field_gradient, FS.integrate_over_block, FS.evaluate_on_block,
               FS.evaluate_on_element, FS.interpolate_to_element_points, M.mesh_with_coords, M.construct_mesh_from_basic_data)
-    h.bounds('4 nodes free in [-%g,%g]^2, elements %s both with det J >= %g; real P1 tables with triangle rule 2 (thorough: 1,2,4); nodal field and reference gradients '
-             'of the gradient chain: all reals (1 quadrature point)' % (BOX, BOX, TWO_EL_CONNS, DET_MIN))
+    h.bounds('4 nodes, unbounded coordinates, elements %s with det J > 0 only (axisymmetric vols identity: no hypothesis; per-element Pappus check with absolute tolerance: '
+             'coordinates in [-%g,%g]^2); real P1 tables with triangle rule 2 (thorough: 1,2,4); nodal field and reference gradients '
+             'of the gradient chain: all reals (1 quadrature point)' % (TWO_EL_CONNS, BOX, BOX))
     h.outside(*OUTSIDE, 'larger meshes: every array of the function space is computed element by element (vmap over conns), sums telescope (composition)')
     h.assume_note(COMPOSITION, 'linear solves encoded relationally (see O4)')
     base = M.construct_mesh_from_basic_data(jnp.array([[0., 0.], [1., 0.], [1., 1.], [0., 1.]]), jnp.array(TWO_EL_CONNS), {'block': jnp.arange(2)})
@@ -929,7 +978,7 @@ def o8(h):
                     for a in range(3):
                         sl.append(shapes[e, q, a])
                         sr.append(Nt[q][a])
-                        # residual form J^T g = dN with the ORACLE's J (equivalent to g = J^-T dN since det J >= 1/50; the Cramer form for all dN is O4):
+                        # residual form J^T g = dN with the ORACLE's J (equivalent to g = J^-T dN since det J > 0; the Cramer form for all dN is O4):
                         # robustly fast for the solver, a wrong wiring of coords/conn/tables into map_element_shape_grads gives a model at once
                         gl += [v_add(v_mul(J[0][0], grads[e, q, a, 0]), v_mul(J[1][0], grads[e, q, a, 1])),
                                v_add(v_mul(J[0][1], grads[e, q, a, 0]), v_mul(J[1][1], grads[e, q, a, 1]))]
@@ -1033,8 +1082,8 @@ def o8(h):
                 for cc in range(2):
                     l.append(v_add(v_mul(o[e, 0, rr, 0], J[0][cc]), v_mul(o[e, 0, rr, 1], J[1][cc])))
                     r.append(v_sum([v_mul(dN[0, a, cc], U[TWO_EL_CONNS[e][a]][rr]) for a in range(3)]))
-            atoms.append(Eq(l, r, name='gradU_times_J_eq_sum_u_dN[el%d]' % e))
-        return pos(els[0][2], els[1][2]), atoms
+            atoms.append(Eq(l, r, when=v_lt(0.0, det), name='gradU_times_J_eq_sum_u_dN[el%d]' % e))   # only THIS element needs det J > 0
+        return [], atoms
     c.prove('FS2grad', spec_g, cap=60)
 
 
@@ -1068,8 +1117,8 @@ def o9(h):
     FS, I, QR, M, S = _mods()
     h.encoded(S.compute_normal, S.compute_edge_vectors, S.get_coords, S.integrate_function_on_edge, S.integrate_function_on_surface, S.integrate_values,
               S.integrate_function, QR.create_quadrature_rule_1D)
-    h.bounds('edge end points free in [-%g,%g]^2, distinct; P1 triangle, three cyclic node orders, det J >= %g; 1-D rules of degree 2 (thorough: 1,2,5,9); '
-             'symbolic quadrature-point field values for integrate_values' % (BOX, BOX, DET_MIN))
+    h.bounds('edge end points: all reals, distinct; P1 triangle with unbounded coordinates, three cyclic node orders, det J > 0 only; 1-D rules of degree 2 (thorough: 1,2,5,9); '
+             'symbolic quadrature-point field values for integrate_values')
     h.outside(*OUTSIDE, 'Surface.create_edges (Python list building driven by a user predicate)')
     h.assume_note(COMPOSITION, 'sqrt by guarded definition; no denominator assumed non-zero')
     smp = lambda rng: [rng.uniform(-3, 3, size=(2, 2))]
